@@ -25,7 +25,7 @@ RULE = ("1-D and 2-D cases on the dyadic grid with NaN injected independently in
 
 
 # counters that every complete run must have incremented (harness self-check, see core.run_check)
-EXPECT_COUNTS = ['recipe:', 'recipe_weights_as_input', 'recipe_only_weight_blanked', 'cdf_partial_nan']
+EXPECT_COUNTS = ['recipe:', 'recipe_weights_as_input', 'recipe_only_weight_blanked', 'dataset_independent:', 'cdf_partial_nan']
 
 def nan_case_1d(rng, fn, n=None):
     n = n or rng.randint(2, 7)
@@ -80,7 +80,7 @@ def recipe_masked_vs_deleted(ctx):
                 subsets = [set(having)]
             else:
                 subsets = [set(c) for k in range(1, len(having) + 1) for c in itertools.combinations(having, k)]
-                if rc.name in ("binary_discretise_proportion",):
+                if rc.name.startswith(("binary_discretise_proportion", "proportion_exceeding")):      # single-input functions
                     subsets = [b | {0} for b in subsets]
                 if len(subsets) > 7:
                     subsets = rng.sample(subsets, 7)
@@ -100,6 +100,43 @@ def recipe_masked_vs_deleted(ctx):
                 ok, why = scorelib.same_result(a, b, tol=1e-8)
                 if not ok:
                     ctx.violation(f"{rc.name}: blanking {d}={lab} with NaN in input(s) {sorted(blank)} differs from deleting that case from all inputs: {why}", desc, "equal", why)
+
+
+def dataset_variables_independent(ctx):
+    """'never more': a NaN in one variable of a Dataset invalidates the case for that variable only. Two variables with
+    different NaN slots (the second is the first read backwards) must each score as they do alone as DataArrays"""
+    import recipes
+    from props import c04 as _c04
+    rng = ctx.rng
+    R = [rc for rc in recipes.recipes() if rc.dataset is not None and _c04.xarraylike_params(rc.dataset)]
+    for it in range(ctx.n(3, 15)):
+        for rc in R:
+            if not ctx.time_left():
+                return
+            xs = [recipes.mat(x) for x in rc.gen(rng, nan=0.3)] if rc.gen is recipes.g_point else [recipes.mat(x) for x in rc.gen(rng)]
+            xs2 = [x.copy(data=np.array(x.values.ravel()[::-1].reshape(x.shape), order="C", copy=True)) if x.dims != () else x for x in xs]
+            kw = {}
+            if rc.dims_kw and rng.random() < 0.6:
+                sub = [d for d in xs[0].dims if d not in rc.nondata and rng.random() < 0.5]
+                kw = {"preserve_dims": sub}
+            b1, b2 = core.call_impl(rc.call, xs, **kw), core.call_impl(rc.call, xs2, **kw)
+            r = core.call_impl(rc.call, [xr.Dataset({"v1": x, "v2": x2}) for x, x2 in zip(xs, xs2)], **kw)
+            desc = {"fn": rc.name, "inputs_v1": [gens.da_repr(x) for x in xs], "v2": "each input of v1 in reverse flat order", "kw": kw}
+            ctx.case(("dataset-independent", desc), b1[0] == "ok")
+            ctx.count("dataset_independent:" + rc.name)
+            if b1[0] != "ok" or b2[0] != "ok":
+                continue
+            if r[0] != "ok" or not isinstance(r[1], xr.Dataset):
+                ctx.violation(f"{rc.name}: Dataset inputs with differently placed NaNs raise / do not give a Dataset ({str(r[1])[:80]})", desc, "a Dataset", str(r[1])[:80])
+                continue
+            for v, b in (("v1", b1), ("v2", b2)):
+                bv = b[1]
+                if isinstance(bv, xr.Dataset):          # functions returning a Dataset per input variable are out of scope here
+                    break
+                ok, why = scorelib.same_value(bv, r[1][v], tol=1e-9)
+                if not ok:
+                    ctx.violation(f"{rc.name}: variable {v} of a Dataset scores differently from the same field alone (NaNs of the other variable reach it): {why}",
+                                  desc, "same as the DataArray call", why)
 
 
 def cdf_partial_nan(ctx):
@@ -144,6 +181,7 @@ def cdf_partial_nan(ctx):
 def run(ctx):
     registry_nan(ctx)
     recipe_masked_vs_deleted(ctx)
+    dataset_variables_independent(ctx)
     cdf_partial_nan(ctx)
 
 
@@ -212,4 +250,5 @@ def registry_nan(ctx):
 def run_without_model(ctx):
     """used when the extracted model does not build against the current source: relations between public calls only"""
     recipe_masked_vs_deleted(ctx)
+    dataset_variables_independent(ctx)
     cdf_partial_nan(ctx)
